@@ -106,6 +106,17 @@ SubDirs == IF "VERIF_SUBALL" \in DOMAIN IOEnv THEN {<<"w", "B">>, <<"w">>, <<>>}
 SubCalls == BpCalls \cup {[C0 EXCEPT !.op = "setumask", !.perm = m] : m \in {0, 63}}
 \* calls on the parent itself (v = 9), interleaved with the calls through the view: what the parent does inside the
 \* view's directory is visible through the view at once, and its own working directory and umask stay its own
+\* a second view of the same parent, made right after the first: of the directory above the first view's (what
+\* it does inside /B shows through the first view at once) - from the plain base only, to keep the universe small
+SecondViews(d) == IF d = <<"w", "B">> /\ hist = BpBase THEN {<<"none">>, <<"w">>} ELSE {<<"none">>}
+View2Calls ==
+    {[C0 EXCEPT !.v = 8, !.op = "mkdir", !.p = p, !.perm = 493] : p \in {AbsP(<<"B", "b">>), AbsP(<<"b">>)}}
+    \cup {[C0 EXCEPT !.v = 8, !.op = "writefile", !.p = p, !.data = <<4>>, !.perm = 438] : p \in {AbsP(<<"B", "f">>), AbsP(<<"B", "b">>)}}
+    \cup {[C0 EXCEPT !.v = 8, !.op = "remove", !.p = p] : p \in {AbsP(<<"B", "f">>), AbsP(<<"B", "a">>)}}
+    \cup {[C0 EXCEPT !.v = 8, !.op = "rename", !.p = AbsP(<<"B", "a">>), !.q = AbsP(<<"B", "b">>)]}
+    \cup {[C0 EXCEPT !.v = 8, !.op = "chdir", !.p = p] : p \in {AbsP(<<"B">>), AbsP(<<"a">>)}}
+    \cup {[C0 EXCEPT !.v = 8, !.op = "setumask", !.perm = 7], [C0 EXCEPT !.v = 8, !.op = "getwd"]}
+    \cup {[C0 EXCEPT !.v = 8, !.op = o, !.p = RelP(<<"f">>)] : o \in {"stat", "readfile"}}
 ParentCalls ==
     {[C0 EXCEPT !.v = 9, !.op = "mkdir", !.p = p, !.perm = 493] : p \in {AbsP(<<"w", "B", "b">>), AbsP(<<"w", "b">>)}}
     \cup {[C0 EXCEPT !.v = 9, !.op = "writefile", !.p = p, !.data = <<3>>, !.perm = 438] : p \in {AbsP(<<"w", "B", "f">>), AbsP(<<"w", "B", "b">>)}}
@@ -124,6 +135,7 @@ Plans == IF WKind = "failfs" THEN {NoPlan} \cup {[fn |-> f, k |-> k] : f \in Pla
 RECURSIVE JoinSlash(_)
 JoinSlash(ps) == IF ps = <<>> THEN "" ELSE "/" \o Head(ps) \o JoinSlash(Tail(ps))
 WrapName == IF w = "sub" THEN (IF wx.nested THEN "subn:" ELSE "sub:") \o (IF wx.dir = <<>> THEN "/" ELSE JoinSlash(wx.dir))
+                                \o (IF wx.dir2 = <<"none">> THEN "" ELSE "+" \o (IF wx.dir2 = <<>> THEN "/" ELSE JoinSlash(wx.dir2)))
             ELSE IF wx.plan.fn = "none" THEN w ELSE w \o ":" \o wx.plan.fn \o ":" \o ToString(wx.plan.k)
 PlanFired == w # "sub" /\ wx.plan.fn # "none" /\ CountOf(wx.fc, wx.plan.fn) >= wx.plan.k
 
@@ -154,8 +166,10 @@ Build ==
 Wrap == /\ w = "none" /\ w' = WKind /\ UNCHANGED <<st, hist, wh, last>>
         \* (from the parent with its own working directory the view is made level by level - Sub("/w").Sub("/B") -:
         \* a nested view is the view of the concatenated directory)
-        /\ IF WKind = "sub" THEN \E d \in SubDirs : wx' = [dir |-> d, vcwd |-> <<>>, umask |-> st.umask,
-                                                            nested |-> (Len(hist) = Len(BpBase) + 2 /\ hist[Len(hist)].op = "setumask")]
+        /\ IF WKind = "sub" THEN \E d \in SubDirs : \E d2 \in SecondViews(d) :
+                                     wx' = [dir |-> d, vcwd |-> <<>>, umask |-> st.umask,
+                                            nested |-> (Len(hist) = Len(BpBase) + 2 /\ hist[Len(hist)].op = "setumask"),
+                                            dir2 |-> d2, vcwd2 |-> <<>>, umask2 |-> st.umask]
            ELSE \E p \in Plans : wx' = [plan |-> p, fc |-> EmptyFn]
 
 \* the strict outcome through the wrapper (the first admissible error of a refusal is the canonical one)
@@ -168,9 +182,10 @@ Through(s, c) ==
 
 Call ==
     /\ w # "none" /\ Len(wh) < WrapLen /\ ~PlanFired
-    /\ \E c \in (IF Kind = "basepath" THEN BpCalls ELSE IF Kind = "sub" THEN SubCalls \cup ParentCalls ELSE WrapCalls(st)) :
+    /\ \E c \in (IF Kind = "basepath" THEN BpCalls ELSE IF Kind = "sub" THEN SubCalls \cup ParentCalls \cup (IF wx.dir2 = <<"none">> THEN {} ELSE View2Calls) ELSE WrapCalls(st)) :
                                   LET o == Through(st, c)
                                       rp == Res(st, IF Kind = "basepath" THEN ToBase(st, c.p)
+                                                    ELSE IF Kind = "sub" /\ c.v = 8 THEN ToBaseD(wx.dir2, wx.vcwd2, c.p)
                                                     ELSE IF Kind = "sub" /\ c.v # 9 THEN ToBaseD(wx.dir, wx.vcwd, c.p) ELSE c.p, FALSE) IN
           \* removing or moving the working directory (or an ancestor of it) is outside the universe
           /\ ~(c.op \in {"remove", "removeall", "rename"} /\ rp.err = "ok" /\ rp.id # Root /\ rp.id \in Range(st.cwd))
@@ -181,6 +196,13 @@ Call ==
           \* ... and so is the parent removing or moving the view's working directory from under it
           /\ ~(Kind = "sub" /\ c.v = 9 /\ c.op \in {"remove", "removeall", "rename"}
                /\ LET vc == wx.dir \o wx.vcwd IN Len(c.p.parts) <= Len(vc) /\ SubSeq(vc, 1, Len(c.p.parts)) = c.p.parts)
+          \* (with a second view, only the sequences in which it takes part: the others are those of the single view)
+          /\ ~(Kind = "sub" /\ wx.dir2 # <<"none">> /\ wh # <<>> /\ last.call.v # 8 /\ c.v # 8)
+          \* (nor one view removing or moving the other view's directory or working directory)
+          /\ ~(Kind = "sub" /\ wx.dir2 # <<"none">> /\ c.op \in {"remove", "removeall", "rename"}
+               /\ LET tgt == IF c.v = 8 THEN ToBaseD(wx.dir2, wx.vcwd2, c.p).parts ELSE IF c.v = 9 THEN c.p.parts ELSE ToBaseD(wx.dir, wx.vcwd, c.p).parts
+                      IsPre(a, b) == Len(a) <= Len(b) /\ SubSeq(b, 1, Len(a)) = a IN
+                  IsPre(tgt, wx.dir \o wx.vcwd) \/ IsPre(tgt, wx.dir2 \o wx.vcwd2))
           \* temporary names are random digits in the implementation and "~k" in the specification: where they fall
           \* in a lexical enumeration is not comparable, so ordered enumerations are not issued once one exists
           /\ ~(c.op \in {"walk", "glob"} /\ st.tmpn > 0)
@@ -190,7 +212,10 @@ Call ==
           \* C11 speaks of relative paths only "once the view's working directory has been set through the view":
           \* when the parent had a working directory of its own, a relative path needs a Chdir through the view first
           /\ ((Kind = "sub" /\ st.cwdn # <<>> /\ ((~c.p.abs /\ c.op # "setumask") \/ (c.op \in {"rename", "link"} /\ ~c.q.abs)))
-                 => (c.v # 9 /\ last.call.op = "chdir" /\ last.call.v # 9 /\ last.res.err = "ok" /\ wh # <<>>))
+                 => (c.v # 9 /\ last.call.op = "chdir" /\ last.call.v = c.v /\ last.res.err = "ok" /\ wh # <<>>))
+          \* (the second view: relative paths and Getwd only after a Chdir through that view, whatever the parent's directory)
+          /\ ((Kind = "sub" /\ c.v = 8 /\ (~c.p.abs /\ c.op # "setumask"))
+                 => (last.call.op = "chdir" /\ last.call.v = 8 /\ last.res.err = "ok" /\ wh # <<>>))
           \* under a fault plan only calls that consult the planned primitive are of interest
           \* (opening a handle is allowed too: the File primitives can only be consulted on one)
           /\ ((w # "sub" /\ wx.plan.fn # "none") => (c.op = "open" \/ \E i \in DOMAIN o.cons : o.cons[i] = wx.plan.fn))
@@ -215,7 +240,7 @@ RoRefusesMutators == [][(w \in {"rofs", "failro"} /\ w' = w /\ last'.call.op \in
 BpConfines == [][(w = "basepath" /\ w' = w) => Outside(st') = Outside(st)]_vars
 
 \* C11 on the specification: a view reaches nothing outside its directory and never changes the parent's own state
-SubConfines == [][(w = "sub" /\ w' = w /\ last'.call.v # 9) => (OutsideD(wx.dir, st') = OutsideD(wx.dir, st)
+SubConfines == [][(w = "sub" /\ w' = w /\ last'.call.v \notin {8, 9}) => (OutsideD(wx.dir, st') = OutsideD(wx.dir, st)
                                              /\ st'.umask = st.umask /\ st'.cwdn = st.cwdn /\ st'.uid = st.uid)]_vars
 
 \* C12 on the specification: an injected failure is returned as such, and without a plan FailFS is the base
